@@ -688,6 +688,24 @@ func (c *Ctx) c01Meta(deliver *ssa.Function, adds []*ssa.Call, postHook ssa.Valu
 			return
 		}
 		if eng.SameField(eng.FieldOfAddr(fa), fMeta) && eng.Dominates(st, adds[0]) {
+			// the whole record copied from a local template whose fields are set beforehand
+			// (meta := MessageMetadata{…}; meta.Mailbox = mb; Meta: meta)
+			if u, ok := st.Val.(*ssa.UnOp); ok {
+				if al, ok := u.X.(*ssa.Alloc); ok && al.Referrers() != nil {
+					for _, ref := range *al.Referrers() {
+						fa2, ok := ref.(*ssa.FieldAddr)
+						if !ok {
+							continue
+						}
+						for _, r2 := range *fa2.Referrers() {
+							if st2, ok := r2.(*ssa.Store); ok && st2.Addr == ssa.Value(fa2) && eng.Dominates(st2, u) {
+								checkField(eng.FieldOfAddr(fa2).Name(), st2)
+							}
+						}
+					}
+					return
+				}
+			}
 			// the whole record built by a helper of the package: Meta: deliveryMetadata(msg, mb, now)
 			if call, idx := eng.CallAndIndex(st.Val); call != nil {
 				if rets, g := eng.ReturnedValues(call, idx); g != nil && len(p.StaticCallSites(g)) == 1 {
